@@ -56,6 +56,8 @@ class Library:
         if ct.startswith('pair_'):
             a, b = self.ty.pair_elems[ct]
             return ['typedef struct %s { %s first; %s second; } %s;' % (ct, a, b, ct)]
+        if ct in getattr(self.ty, 'array_len', {}):
+            return ['typedef struct %s { %s a[%d]; } %s;' % (ct, e, self.ty.array_len[ct], ct)]
         if ct.startswith('tuple_'):
             es = self.ty.tuple_elems[ct]
             return ['typedef struct %s { %s } %s;' % (ct, ' '.join('%s e%d;' % (e, i) for i, e in enumerate(es)), ct)]
@@ -84,6 +86,9 @@ class Library:
                 f.update(self.vecit(n, ct, e))
             elif ct.startswith('vecrit_'):
                 f.update(self.vecrit(n, ct, e))
+            elif ct in getattr(ty, 'array_len', {}):
+                f[n + '__at_ref'] = ('static inline %s *%s__at_ref(%s *x, uint64_t i) { __CPROVER_assert(i < %d, "UB: std::array operator[] index out of range"); '
+                                     'return &x->a[i]; }' % (e, n, ct, ty.array_len[ct]))
             elif ct.startswith('tuple_'):
                 f.update(self.tuple(n, ct))
             elif ct.startswith('pair_') and ct in ty.pair_elems:
@@ -397,6 +402,8 @@ class Library:
         f['ext__max__uint64_t'] = 'static inline uint64_t ext__max__uint64_t(void) { return UINT64_MAX; }'
         f['str_t__ctor0'] = 'static inline str_t str_t__ctor0(void) { return STR_EMPTY; }'
         f['str_t__empty'] = 'static inline _Bool str_t__empty(str_t s) { return s == STR_EMPTY; }'
+        f['MOVE__str_t'] = ('str_t nondet_moved_from_str(void);\nstatic inline str_t MOVE__str_t(str_t *p) { str_t v = *p; *p = nondet_moved_from_str(); return v; }'
+                            '   /* std::move(s): s stays valid, its value is unspecified */')
         f['str_t__op_eq'] = 'static inline _Bool str_t__op_eq(str_t a, str_t b) { return a == b; }'
         f['str_t__op_ne'] = 'static inline _Bool str_t__op_ne(str_t a, str_t b) { return a != b; }'
         for t in ('int', 'int64_t', 'uint64_t', 'uint32_t', 'double', 'float'):
